@@ -364,7 +364,7 @@ def csr_internals(ctx):
                 rv = r.ret.deref()
                 got = (rv.v if rv.k in ("variant", "unknown") else repr(rv))
             exp = NID_ORACLE.get(v)
-            m = re.search(r"Nid\((\d+)_i32\)", str(got))
+            m = re.search(r"Nid\((\d+)_i32\)", str(got)) or re.search(r"Nid\[int\((\d+)\)\]", repr(got))
             ctx.require(R5, m is not None and exp is not None and int(m.group(1)) == exp[1], "%s:%s" % (gn[0].file, gn[0].line),
                         "get_nid(%s) = NID_%s = %s (got %s)" % (v, exp[0] if exp else "?", exp[1] if exp else "?", got), ["get_nid", v])
     tg = prog.must_body("acmed::config::SubjectAttributes::to_generic")
